@@ -365,7 +365,10 @@ def post_process_findings(banner: Optional[Banner], algs: Algorithms, client_aud
         while len(db[category][algorithm_name]) < 3:
             db[category][algorithm_name].append([])
 
-        db[category][algorithm_name][2].append("vulnerable to the Terrapin attack (CVE-2023-48795), allowing message prefix truncation")
+        # A peer may list the same algorithm more than once; it carries the warning once.
+        text = "vulnerable to the Terrapin attack (CVE-2023-48795), allowing message prefix truncation"
+        if text not in db[category][algorithm_name][2]:
+            db[category][algorithm_name][2].append(text)
 
     def _get_chacha_ciphers_enabled(algs: Algorithms) -> List[str]:
         '''Returns a list of chacha20-poly1305 ciphers that the peer supports.'''
@@ -497,6 +500,7 @@ def post_process_findings(banner: Optional[Banner], algs: Algorithms, client_aud
 
     # Return a note telling the user that, while this target is properly configured, if connected to a vulnerable peer, then a vulnerable connection is still possible.
     additional_notes = []
+    algs_to_note = [alg for i, alg in enumerate(algs_to_note) if alg not in algs_to_note[:i]]  # Name each algorithm once, in the order in which the peer lists them.
     if len(algs_to_note) > 0:
         additional_notes.append("Be aware that, while this target properly supports the strict key exchange method (via the kex-strict-?-v00@openssh.com marker) needed to protect against the Terrapin vulnerability (CVE-2023-48795), all peers must also support this feature as well, otherwise the vulnerability will still be present.  The following algorithms would allow an unpatched peer to create vulnerable SSH channels with this target: %s.  If any CBC ciphers are in this list, you may remove them while leaving the *-etm@openssh.com MACs in place; these MACs are fine while paired with non-CBC cipher types." % ", ".join(algs_to_note))
 
